@@ -26,7 +26,7 @@ function), then proves that the regenerated glue evaluates to the hand-written v
 
 ACCEPTED SUBSET (anything else raises Unsupported -> exit code 3; never a silent skip):
   statements : docstring | `return <bool expr>` | `raise ...` | NAME = <tolerance expr> for a tolerance name (only before any numeric
-               statement) | NAME = <bool expr> for a name that is later used as a condition | if / else | `for ... in <iter>:` whose
+               statement) | `if NAME is None: NAME = <tolerance expr>` (same meaning as the conditional expression) | NAME = <bool expr> for a name that is later used as a condition | if / else | `for ... in <iter>:` whose
                body may `return` (no else, no break / continue) | numeric statements: Assign / AugAssign / tuple-unpacking Assign /
                `for` loops without return-raise-break-continue, none of which may assign a tolerance or boolean name
   tolerance expr: NAME | Settings.get_atol() | A if NAME is None else B | 0.0 | None
@@ -233,7 +233,7 @@ class Fn:
         if "__H" in text or "Settings" in text:
             fail(e, "internal: unresolved marker")
         tid = self.tr.template_id(text, self.label)
-        return "(BPrim %d [%s])" % (tid, "; ".join(holes))
+        return "(BPrim @@T%d@@ [%s])" % (tid, "; ".join(holes))
 
     # ---- boolean expressions
     def bexp(self, e, prelude):
@@ -289,6 +289,16 @@ class Fn:
             return '(SLetTol "%s" %s %s)' % (s.targets[0].id, self.wrap(self.tol(s.value)), self.block(rest, prelude, in_loop))
         if isinstance(s, ast.Assign) and len(s.targets) == 1 and isinstance(s.targets[0], ast.Name) and s.targets[0].id in self.boolvars:
             return '(SLetBool "%s" %s %s)' % (s.targets[0].id, self.bexp(s.value, prelude), self.block(rest, prelude, in_loop))
+        if (isinstance(s, ast.If) and not s.orelse and len(s.body) == 1 and isinstance(s.body[0], ast.Assign)
+                and isinstance(s.test, ast.Compare) and len(s.test.ops) == 1 and isinstance(s.test.ops[0], ast.Is)
+                and isinstance(s.test.left, ast.Name) and s.test.left.id in TOLNAMES
+                and isinstance(s.test.comparators[0], ast.Constant) and s.test.comparators[0].value is None
+                and len(s.body[0].targets) == 1 and isinstance(s.body[0].targets[0], ast.Name) and s.body[0].targets[0].id == s.test.left.id):
+            # `if atol is None: atol = <tol>`  ==  `atol = <tol> if atol is None else atol`
+            if any(not isinstance(p, str) for p in prelude):
+                fail(s, "tolerance name assigned after numeric statements")
+            x = s.test.left.id
+            return '(SLetTol "%s" (TIfNone "%s" %s (TVar "%s")) %s)' % (x, x, self.wrap(self.tol(s.body[0].value)), x, self.block(rest, prelude, in_loop))
         if isinstance(s, ast.If):
             c = self.bexp(s.test, prelude)
             th = self.block(list(s.body) + ([] if self.terminates(s.body) else list(rest)), list(prelude), in_loop)
@@ -327,6 +337,11 @@ class Translator:
         self.templates.append(text)
         self.where.append(label)
         return len(self.templates) - 1
+
+    @staticmethod
+    def renumber(body, newid):
+        import re
+        return re.sub(r"@@T(\d+)@@", lambda m: str(newid[int(m.group(1))]), body)
 
     def load(self, rel):
         return ast.parse(open(os.path.join(self.root, rel)).read())
@@ -406,12 +421,18 @@ class Translator:
         self.ctor_guards(mp, "MProcess", "gen_MProcess_init_guards")
 
     def emit(self):
+        # canonical numbering: position in the SORTED table, so that merely reordering operands / functions does not renumber
+        order = sorted(range(len(self.templates)), key=lambda i: self.templates[i])
+        newid = {old: new for new, old in enumerate(order)}
+        self.defs = [(c, p, self.renumber(b, newid)) for c, p, b in self.defs]
+        self.where = [self.where[i] for i in order]
+        self.templates = [self.templates[i] for i in order]
         out = ["(* GENERATED by gen/c01_py2coq.py from the current quara source -- do not edit *)",
                "From Coq Require Import String List.", "From QV.Model Require Import C01_Glue.", "Import ListNotations.",
                "Local Open Scope string_scope.", ""]
         out.append("Definition gen_templates : list string := [")
         for i, (t, w) in enumerate(zip(self.templates, self.where)):
-            out.append("  (* %d, first used in %s *) %s%s" % (i, w, coq_str(t), ";" if i + 1 < len(self.templates) else ""))
+            out.append("  (* %d, used in %s *) %s%s" % (i, w, coq_str(t), ";" if i + 1 < len(self.templates) else ""))
         out.append("].")
         out.append("")
         for coq, params, body in self.defs:
